@@ -132,6 +132,7 @@ def _hist_strategy():
 
     send = st.builds(lambda m, n, b: ["send", retarget(m, n), b], gen.wellformed_message(), node, st.sampled_from((None, None, True, False)))
     send_set = st.builds(lambda n, c, t, v, b: ["send", [n, c, 1, 0, t, v], b], node, st.sampled_from((1, 2, 12)), st.sampled_from((3, 23)), st.one_of(st.sampled_from(("0", "1", "1", "0")), gen.short_payloads), st.sampled_from((None, None, False)))
+    send_req = st.builds(lambda n, c, t, b: ["send", [n, c, 2, 0, t, ""], b], node, st.sampled_from((1, 2, 12)), st.sampled_from((3, 23)), st.sampled_from((None, None, True)))
     send_internal = st.builds(lambda n, t, p, b: ["send", [n, 255, 3, 0, t, p], b], node, st.sampled_from((19, 19, 13, 18, 24, 4)), st.sampled_from(("", "1")), st.sampled_from((None, None, True, False)))
     wake = st.builds(lambda n, t: ["rx", f"{n};255;3;0;{t};7\n"], node, st.sampled_from((22, 32)))
     other = st.one_of(
@@ -146,7 +147,7 @@ def _hist_strategy():
         {
             "kind": st.just("hist"),
             "version": gen.versions_any,
-            "ops": st.lists(gen.weighted((4, send), (3, send_set), (2, send_internal), (2, wake), (3, other)), min_size=6, max_size=25),
+            "ops": st.lists(gen.weighted((4, send), (3, send_set), (2, send_req), (2, send_internal), (2, wake), (3, other)), min_size=6, max_size=25),
         }
     )
 
@@ -260,6 +261,17 @@ def run_case(case: dict) -> Outcome:
         if wrote:
             if wrote != [line]:
                 return fail(f"wrong-write:cmd={command}", f"{where} wrote {wrote!r}, the encoded line is {line!r}")
+            # the application edits the object it just sent and sends it again (Message has no copy helper)
+            again = env.mk_message(msg)
+            await env.send(gateway, again, buffer)
+            transport.writes.clear()
+            again.payload = msg[5] + "!"
+            again.ack = 1 - msg[3]
+            line2 = ref_format(msg[0], msg[1], msg[2], 1 - msg[3], msg[4], msg[5] + "!")
+            status2, value2 = await env.send(gateway, again, buffer)
+            wrote2 = [l for _s, l in transport.writes]
+            if status2 == "ok" and wrote2 and wrote2 != [line2]:
+                return fail(f"resend-wrong-write:cmd={command}", f"{where}: the same Message object, edited and sent again, wrote {wrote2!r}; its encoded line is {line2!r}")
             return None  # outcome (1)
         if dest != "sleeping":
             return fail(f"silently-discarded:cmd={command}:dest={dest}", f"{where}: nothing written, no error, destination not sleeping")
